@@ -57,7 +57,17 @@ def make_atom(label, el, pos, adp_type, adp, occ, mult):
 
 
 def call_sf(h, cell, sgname, atoms, disper=None):
+    """StructureFactor on hkl given as list / tuple / integer array / float array (chosen from the indices); called a second time
+    on the SAME atom objects every few calls: the result must not depend on an earlier call (atoms must not be modified)"""
     from xfab import structure
     import numpy as np
-    r = structure.StructureFactor(np.array(h), cell, sgname, atoms, disper)
-    return complex(float(r[0]), float(r[1]))
+    k = (abs(h[0]) + 2 * abs(h[1]) + 3 * abs(h[2])) % 4
+    hh = [list(h), np.array(h, dtype=float), np.array(h), list(h)][k]
+    r = structure.StructureFactor(hh, cell, sgname, atoms, disper)
+    F = complex(float(r[0]), float(r[1]))
+    if k == 1:
+        r2 = structure.StructureFactor(hh, cell, sgname, atoms, disper)
+        F2 = complex(float(r2[0]), float(r2[1]))
+        if F2 != F:
+            raise AssertionError("StructureFactor returns %r the first time and %r the second time on the same atom objects" % (F, F2))
+    return F
